@@ -22,6 +22,15 @@ pub fn run(ctx: &mut Ctx) {
     for case in ctx.cases("paired", 900, true) {
         ctx.run_case("paired", case, paired_builders);
     }
+    // the same pairs while the hash of every standardised triple falls into 1-17 classes (hook
+    // H7): the lossy cache holds entries of different triples under one hash all the time
+    for case in ctx.cases("paired_weak_hash", 400, true) {
+        ctx.run_case("paired_weak_hash", case, |ctx, rng| {
+            let _w = crate::caps::WeakHash::new(None, Some(*rng.pick(&[1u64, 2, 3, 5, 17])));
+            ctx.count("paired_histories_with_weak_triple_hashes", 1);
+            paired_builders(ctx, rng);
+        });
+    }
     for case in ctx.cases("paired_long", 10, true) {
         ctx.run_case("paired_long", case, |ctx, rng| {
             let mut cfg = random_cfg(rng, 9, true);
